@@ -1,5 +1,6 @@
 import TracklibVerif.Model.Raster
 import TracklibVerif.Gen.Raster
+import TracklibVerif.Gen.Utils
 /-! Tie for C19: `Raster.getCell` translated from the CURRENT `tracklib/core/raster.py` equals the model's
 `TV.Raster.getCell`.
 
@@ -44,4 +45,291 @@ theorem tie_getCell (floor trunc : α → Int) (g : Raster.Grid α) (x y : α)
             by_cases hc : Py.feq idx ((g.ncol : Int) : α) = true <;> simp [hc, hi']
 end
 
+/-! ## The cell operators of `core/utils.py` (`co_sum`, `co_min`, `co_max`, `co_count`, `co_avg`, `co_median`)
+-/
+
+theorem forList_range_getIdx_aux {β σ ρ : Type} (l : List β) (f : β → σ → M (Ctl σ ρ)) (body : Int → σ → M (Ctl σ ρ))
+    (h : ∀ i s, body i s = Py.bind (Py.getIdx l i) (fun v => f v s)) (suf pre : List β) (hl : l = pre ++ suf) (s : σ) :
+    Py.forList body (Py.range (pre.length : Int) (Py.len l)) s = Py.forList f suf s := by
+  induction suf generalizing pre s with
+  | nil =>
+    rw [Py.range_empty (by subst hl; simp [Py.len])]; rfl
+  | cons x xs ih =>
+    have hlt : (pre.length : Int) < Py.len l := by subst hl; simp [Py.len]; omega
+    have hget : l[pre.length]? = some x := by subst hl; simp
+    rw [Py.range_cons hlt, Py.forList_cons, Py.forList_cons, h, Py.getIdx_natCast, Py.getItem_eq_ok hget, Py.bind_ok]
+    cases hb : f x s with
+    | error e => rfl
+    | ok c =>
+      cases c with
+      | cont s1 =>
+        have := ih (pre ++ [x]) (by rw [hl]; simp) s1
+        simp only [List.length_append, List.length_cons, List.length_nil, Int.natCast_add] at this
+        exact this
+      | brk s1 => rfl
+      | ret r => rfl
+
+theorem forList_range_getIdx {β σ ρ : Type} (l : List β) (f : β → σ → M (Ctl σ ρ)) (body : Int → σ → M (Ctl σ ρ))
+    (h : ∀ i s, body i s = Py.bind (Py.getIdx l i) (fun v => f v s)) (s : σ) :
+    Py.forList body (Py.range 0 (Py.len l)) s = Py.forList f l s :=
+  forList_range_getIdx_aux l f body h l [] rfl s
+
+/-- the scalar `α` extended with one NaN (`none`): arithmetic with a NaN operand is NaN, every comparison with a NaN
+operand is false -/
+def Nan (α : Type) := Option α
+
+namespace Nan
+variable {α : Type}
+def lift2 (f : α → α → α) : Nan α → Nan α → Nan α
+  | some x, some y => some (f x y)
+  | some _, none => none
+  | none, _ => none
+def rel (r : α → α → Prop) : Nan α → Nan α → Prop
+  | some x, some y => r x y
+  | some _, none => False
+  | none, _ => False
+instance decRel (r : α → α → Prop) [d : ∀ a b, Decidable (r a b)] : ∀ a b, Decidable (rel r a b)
+  | some x, some y => d x y
+  | some _, none => isFalse (fun h => h)
+  | none, _ => isFalse (fun h => h)
+instance [Add α] : Add (Nan α) := ⟨lift2 (· + ·)⟩
+instance [Sub α] : Sub (Nan α) := ⟨lift2 (· - ·)⟩
+instance [Mul α] : Mul (Nan α) := ⟨lift2 (· * ·)⟩
+instance [Div α] : Div (Nan α) := ⟨lift2 (· / ·)⟩
+instance [LE α] : LE (Nan α) := ⟨rel (· ≤ ·)⟩
+instance [LT α] : LT (Nan α) := ⟨rel (· < ·)⟩
+instance [LE α] [d : DecidableLE α] : DecidableLE (Nan α) := decRel (· ≤ ·) (d := d)
+instance [LT α] [d : DecidableLT α] : DecidableLT (Nan α) := decRel (· < ·) (d := d)
+instance {n : Nat} [OfNat α n] : OfNat (Nan α) n := ⟨some (OfNat.ofNat n)⟩
+instance [IntCast α] : IntCast (Nan α) := ⟨fun k => some (k : α)⟩
+instance [OfScientific α] : OfScientific (Nan α) := ⟨fun m s e => some (OfScientific.ofScientific m s e)⟩
+
+/-- `some a` / `none` with the type `Nan α` (for the elaborator; they unfold reducibly) -/
+abbrev num (a : α) : Nan α := Option.some a
+abbrev nan : Nan α := Option.none
+@[elab_as_elim] theorem casesOn' {motive : Nan α → Prop} (v : Nan α) (nan : motive nan) (num : ∀ a, motive (num a)) : motive v :=
+  match v with
+  | none => nan
+  | some a => num a
+theorem feq_num [LE α] [DecidableLE α] (a b : α) : Py.feq (num a) (num b) = Py.feq a b := rfl
+theorem feq_nan_left [LE α] [DecidableLE α] (b : Nan α) : Py.feq nan b = false := rfl
+theorem isnan_nan [LE α] [DecidableLE α] : Gen.Utils.isnan (nan : Nan α) = .ok true := rfl
+theorem isnan_num [LE α] [DecidableLE α] (a : α) (h : a ≤ a) : Gen.Utils.isnan (num a) = .ok false := by
+  show Except.ok (!(decide (a ≤ a) && decide (a ≤ a))) = _
+  simp [h]
+theorem lt_num [LT α] [DecidableLT α] (a b : α) : decide (num a < num b) = decide (a < b) := rfl
+theorem le_num [LE α] [DecidableLE α] (a b : α) : decide (num a ≤ num b) = decide (a ≤ b) := rfl
+theorem zero_eq [OfNat α 0] : (0 : Nan α) = num 0 := rfl
+theorem add_num [Add α] (a b : α) : num a + num b = num (a + b) := rfl
+end Nan
+
+/-- a `for i in range(len(l)): val = l[i]; …` loop whose body always ends normally is a left fold over `l` -/
+theorem forList_range_getIdx_foldl {β σ ρ : Type} (l : List β) (step : σ → β → σ) (body : Int → σ → M (Ctl σ ρ))
+    (h : ∀ i s, body i s = Py.bind (Py.getIdx l i) (fun v => .ok (.cont (step s v)))) (s : σ) :
+    Py.forList body (Py.range 0 (Py.len l)) s = .ok (.done (l.foldl step s)) := by
+  rw [forList_range_getIdx l (fun v s => .ok (.cont (step s v))) body h s]
+  exact Py.forList_eq_foldl _ step l s (fun _ _ _ => rfl)
+
+section
+variable {α : Type}
+open Nan
+
+/-- `co_sum` -/
+theorem tie_co_sum [Add α] [OfNat α 0] [LE α] [DecidableLE α] (l : List (Option α)) (hle : ∀ x : α, x ≤ x) :
+    Gen.Utils.co_sum (α := Nan α) l = .ok (some (Raster.coSum l)) := by
+  revert l; intro (l : List (Nan α))
+  unfold Gen.Utils.co_sum
+  simp only []
+  have h1 : ∀ body : Int → Nan α → Py.M (Py.Ctl (Nan α) (Nan α)), _ → Py.forList body (Py.range 0 (Py.len l)) 0 = _ :=
+    fun body h => forList_range_getIdx_foldl l
+      (fun (t : Nan α) (v : Nan α) => match v with | none => t | some a => t + num a) body h 0
+  rw [h1 _ ?spec]
+  case spec =>
+    intro i s
+    cases Py.getIdx l i with
+    | error e => rfl
+    | ok v =>
+      cases v using Nan.casesOn' with
+      | nan => simp only [Nan.isnan_nan, Py.bind_ok, if_true]
+      | num a => simp only [Nan.isnan_num a (hle a), Py.bind_ok, Bool.false_eq_true, if_false]
+  simp only [Py.bind_ok]
+  unfold Raster.coSum
+  show Except.ok (List.foldl _ (num 0) l) = _
+  rw [List.foldl_hom (f := (num : α → Nan α)) (g₁ := fun s (v : Nan α) => match v with | none => s | some a => s + a)]
+  · rfl
+  · intro x y; cases y using Nan.casesOn' <;> rfl
+
+
+/-- `co_min` -/
+theorem tie_co_min [LT α] [DecidableLT α] [LE α] [DecidableLE α] (l : List (Option α)) (hle : ∀ x : α, x ≤ x) :
+    Gen.Utils.co_min (α := Nan α) (nan := none) l = .ok (Raster.coMin l) := by
+  revert l; intro (l : List (Nan α))
+  unfold Gen.Utils.co_min
+  simp only []
+  have h1 : ∀ body : Int → Nan α → Py.M (Py.Ctl (Nan α) (Nan α)), _ → Py.forList body (Py.range 0 (Py.len l)) nan = _ :=
+    fun body h => forList_range_getIdx_foldl l
+      (fun (m : Nan α) (v : Nan α) => match v with
+        | none => m
+        | some a => match m with
+          | none => num a
+          | some b => if a < b then num a else num b) body h nan
+  rw [h1 _ ?spec]
+  case spec =>
+    intro i s
+    cases Py.getIdx l i with
+    | error e => rfl
+    | ok v =>
+      cases v using Nan.casesOn' with
+      | nan => simp only [Nan.isnan_nan, Py.bind_ok, if_true]
+      | num a =>
+        simp only [Nan.isnan_num a (hle a), Py.bind_ok, Bool.false_eq_true, if_false]
+        cases s using Nan.casesOn' with
+        | nan => simp only [Nan.isnan_nan, Py.bind_ok, Bool.true_or, if_true]
+        | num b =>
+          simp only [Nan.isnan_num b (hle b), Py.bind_ok, Bool.false_or, Nan.lt_num, decide_eq_true_eq]
+          by_cases hab : a < b
+          · simp only [hab, if_true]
+          · simp only [hab, if_false]
+  simp only [Py.bind_ok]
+  by_cases h0 : Py.len l ≤ 0
+  · have : l = [] := by
+      cases l with
+      | nil => rfl
+      | cons x xs => simp [Py.len] at h0; omega
+    subst this; rfl
+  · simp only [h0, decide_false, Bool.false_eq_true, if_false]
+    rfl
+
+
+/-- `co_max` -/
+theorem tie_co_max [LT α] [DecidableLT α] [LE α] [DecidableLE α] (l : List (Option α)) (hle : ∀ x : α, x ≤ x) :
+    Gen.Utils.co_max (α := Nan α) (nan := none) l = .ok (Raster.coMax l) := by
+  revert l; intro (l : List (Nan α))
+  unfold Gen.Utils.co_max
+  simp only []
+  have h1 : ∀ body : Int → Nan α → Py.M (Py.Ctl (Nan α) (Nan α)), _ → Py.forList body (Py.range 0 (Py.len l)) nan = _ :=
+    fun body h => forList_range_getIdx_foldl l
+      (fun (m : Nan α) (v : Nan α) => match v with
+        | none => m
+        | some a => match m with
+          | none => num a
+          | some b => if b < a then num a else num b) body h nan
+  rw [h1 _ ?spec]
+  case spec =>
+    intro i s
+    cases Py.getIdx l i with
+    | error e => rfl
+    | ok v =>
+      cases v using Nan.casesOn' with
+      | nan => simp only [Nan.isnan_nan, Py.bind_ok, if_true]
+      | num a =>
+        simp only [Nan.isnan_num a (hle a), Py.bind_ok, Bool.false_eq_true, if_false]
+        cases s using Nan.casesOn' with
+        | nan => simp only [Nan.isnan_nan, Py.bind_ok, Bool.true_or, if_true]
+        | num b =>
+          simp only [Nan.isnan_num b (hle b), Py.bind_ok, Bool.false_or, Nan.lt_num, decide_eq_true_eq]
+          by_cases hab : b < a
+          · simp only [hab, if_true]
+          · simp only [hab, if_false]
+  simp only [Py.bind_ok]
+  by_cases h0 : Py.len l ≤ 0
+  · have : l = [] := by
+      cases l with
+      | nil => rfl
+      | cons x xs => simp [Py.len] at h0; omega
+    subst this; rfl
+  · simp only [h0, decide_false, Bool.false_eq_true, if_false]
+    rfl
+
+/-- the counting fold is `coCount` -/
+theorem foldl_count (l : List (Nan α)) (c : Int) :
+    l.foldl (fun (c : Int) (v : Nan α) => match v with | none => c | some _ => c + 1) c = c + (Raster.coCount l : Nat) := by
+  induction l generalizing c with
+  | nil => simp [Raster.coCount]
+  | cons x xs ih =>
+    cases x using Nan.casesOn' with
+    | nan => exact ih c
+    | num a =>
+      rw [List.foldl_cons]
+      show List.foldl _ (c + 1) xs = c + ((Raster.coCount xs + 1 : Nat) : Int)
+      rw [ih]; omega
+
+/-- `co_count` -/
+theorem tie_co_count [LE α] [DecidableLE α] (l : List (Option α)) (hle : ∀ x : α, x ≤ x) :
+    Gen.Utils.co_count (α := Nan α) l = .ok ((Raster.coCount l : Nat) : Int) := by
+  revert l; intro (l : List (Nan α))
+  unfold Gen.Utils.co_count
+  simp only []
+  have h1 : ∀ body : Int → Int → Py.M (Py.Ctl Int Int), _ → Py.forList body (Py.range 0 (Py.len l)) 0 = _ :=
+    fun body h => forList_range_getIdx_foldl l
+      (fun (c : Int) (v : Nan α) => match v with | none => c | some _ => c + 1) body h 0
+  rw [h1 _ ?spec]
+  case spec =>
+    intro i s
+    cases Py.getIdx l i with
+    | error e => rfl
+    | ok v =>
+      cases v using Nan.casesOn' with
+      | nan => simp only [Nan.isnan_nan, Py.bind_ok, if_true]
+      | num a => simp only [Nan.isnan_num a (hle a), Py.bind_ok, Bool.false_eq_true, if_false]
+  simp only [Py.bind_ok, foldl_count, Int.zero_add]
+
+
+/-- the (sum, count) fold of `co_avg` -/
+theorem foldl_avg [Add α] (l : List (Nan α)) (s : α) (c : Int) :
+    l.foldl (fun (p : Nan α × Int) (v : Nan α) => match v with | none => p | some a => (p.1 + num a, p.2 + 1)) (num s, c)
+      = (num (l.foldl (fun s (v : Nan α) => match v with | none => s | some a => s + a) s), c + (Raster.coCount l : Nat)) := by
+  induction l generalizing s c with
+  | nil => simp [Raster.coCount]
+  | cons x xs ih =>
+    cases x using Nan.casesOn' with
+    | nan => exact ih s c
+    | num a =>
+      rw [List.foldl_cons, List.foldl_cons]
+      show List.foldl _ (num (s + a), c + 1) xs = (_, c + ((Raster.coCount xs + 1 : Nat) : Int))
+      rw [ih]; congr 1; omega
+
+/-- `co_avg` -/
+theorem tie_co_avg [Add α] [Div α] [OfNat α 0] [IntCast α] [NatCast α] [LE α] [DecidableLE α] (l : List (Option α))
+    (hle : ∀ x : α, x ≤ x) (hcast : ∀ n : Nat, ((n : Int) : α) = (n : α))
+    (hnz : ∀ n : Nat, n ≠ 0 → ¬ Py.feq (((n : Int) : α)) 0 = true) :
+    Gen.Utils.co_avg (α := Nan α) (nan := none) l = .ok (Raster.coAvg l) := by
+  revert l; intro (l : List (Nan α))
+  unfold Gen.Utils.co_avg
+  simp only []
+  have h1 : ∀ body : Int → Nan α × Int → Py.M (Py.Ctl (Nan α × Int) (Nan α)), _ → Py.forList body (Py.range 0 (Py.len l)) (num 0, 0) = _ :=
+    fun body h => forList_range_getIdx_foldl l
+      (fun (p : Nan α × Int) (v : Nan α) => match v with | none => p | some a => (p.1 + num a, p.2 + 1)) body h (num 0, 0)
+  rw [Nan.zero_eq, h1 _ ?spec]
+  case spec =>
+    intro i s
+    cases Py.getIdx l i with
+    | error e => rfl
+    | ok v =>
+      cases v using Nan.casesOn' with
+      | nan => simp only [Nan.isnan_nan, Py.bind_ok, if_true]
+      | num a => simp only [Nan.isnan_num a (hle a), Py.bind_ok, Bool.false_eq_true, if_false]
+  simp only [Py.bind_ok, foldl_avg, Int.zero_add]
+  unfold Raster.coAvg
+  by_cases h0 : Py.len l ≤ 0
+  · have : l = [] := by
+      cases l with
+      | nil => rfl
+      | cons x xs => simp [Py.len] at h0; omega
+    subst this; rfl
+  · have hl : ¬ @List.length (Option α) l = 0 := by
+      intro h; apply h0; show ((@List.length (Option α) l : Nat) : Int) ≤ 0; omega
+    simp only [h0, decide_false, Bool.false_eq_true, if_false]
+    rw [if_neg hl]
+    by_cases hc : Raster.coCount l = 0
+    · rw [hc]; simp only [Int.natCast_zero, decide_true, if_true]
+    · have hc' : ¬ ((Raster.coCount l : Nat) : Int) = 0 := by omega
+      simp only [hc', decide_false, Bool.false_eq_true, if_false]
+      rw [if_neg hc]
+      show Py.bind (if Py.feq (((Raster.coCount l : Nat) : Int) : α) 0 = true then _ else _) _ = _
+      rw [if_neg (hnz _ hc)]
+      show Except.ok (some (_ / (((Raster.coCount l : Nat) : Int) : α))) = _
+      rw [hcast]; rfl
+
+end
 end TV.Tie.C19
